@@ -208,6 +208,56 @@ impl Context {
             }
 //@@ end
 
+// ---- Z1 (C13, C01): the ONE scheduler loop shared by all processes runs the task it took from the queue in place, to its end, before it takes the
+// next one.  This is the only thing that serialises the queue-driven tasks of a process (there is no per-process lock), so it is what makes the
+// outcome of a process independent of the number of runtime threads.  Asynchrony: `tokio::spawn(async move BLOCK)` becomes `{ interleave_sched(); BLOCK }`
+// (R10): BLOCK would run LATER, beside whatever the loop dequeues next -- the heap BLOCK starts from is then no longer the heap at dequeue time.
+pub enum Signal { Terminal, Task(Arc<Task>) }
+// what running one dequeued task does to the engine state: Task::exec (proved in U-sched) or, when it fails, the exec-failed handler proved above
+pub uninterp spec fn ran_in_place(a: Heap, b: Heap, t: Tid) -> bool;
+pub uninterp spec fn sched_closed(s: Scheduler) -> bool;
+impl Scheduler {
+    // queue.rs: Queue::next = the receiving end of the one channel (None when the channel is closed); which signal arrives is not modelled
+    pub uninterp spec fn s_next_signal(&self) -> Option<Signal>;
+    #[verifier::external_body]
+    pub fn queue_next(&self, Tracked(h): Tracked<&Heap>) -> (r: Option<Signal>)
+        ensures r == self.s_next_signal(), r is Some && r->Some_0 is Task ==> wf_task(*h, *r->Some_0->Task_0) { unimplemented!() }
+    // R7: `*self.closed.lock().unwrap() = true;`
+    #[verifier::external_body]
+    pub fn set_closed(&self) ensures sched_closed(*self) { unimplemented!() }
+}
+// R7: `task.exec(ctx).unwrap_or_else(|err| { .. })` = run the task; on failure the handler `Scheduler::next::exec_failed` (proved above) takes over
+#[verifier::external_body]
+pub fn exec_or_fail(task: &Arc<Task>, ctx: &Context, Tracked(h): Tracked<&mut Heap>)
+    requires old(h).wf(), wf_task(*old(h), **task), old(h).cur == task.id@
+    ensures final(h).wf(), fwd(*old(h), *final(h)), ran_in_place(*old(h), *final(h), task.id@) { unimplemented!() }
+// anything other tasks of the runtime do before a spawned block runs
+#[verifier::external_body]
+pub fn interleave_sched(Tracked(h): Tracked<&mut Heap>)
+    requires old(h).wf() ensures final(h).wf(), fwd(*old(h), *final(h)), final(h).cur == old(h).cur { unimplemented!() }
+pub open spec fn with_cur(h: Heap, t: Tid) -> Heap { Heap { cur: t, action: None, ctx_log: h.ctx_log.push(t), ..h } }
+impl Scheduler {
+//@@ extract file=acts/src/scheduler/scheduler.rs in="impl Scheduler" item="fn next" name=Scheduler::next props=C13,C01
+//@@ opt heapmethods=queue_next,interleave_sched,exec_or_fail,create_context
+//@@ rw R10 `pub async fn next` => `pub fn next`
+//@@ rw R10 `self . queue . next ( ) . await` => `self.queue_next()`
+//@@ rw R10 `tokio :: spawn ( async move $B:block ) ;` => `{ interleave_sched(); $B }`
+//@@ rw R7 `task . exec ( ctx ) . unwrap_or_else ( | err | $B:block ) ;` => `exec_or_fail(&task, ctx);`
+//@@ rw R7 `* self . closed . lock ( ) . unwrap ( ) = true ;` => `self.set_closed();`
+//@@ spec
+        requires old(h).wf()
+        ensures
+            //# Z1-loop-fwd
+            final(h).wf() && fwd(*old(h), *final(h)),
+            //# Z1-the-loop-runs-the-task-it-took-from-the-queue-in-place-to-its-end-before-it-takes-the-next-one [C13,C01]
+            match self.s_next_signal() {
+                Some(Signal::Task(t)) => ran_in_place(with_cur(*old(h), t.id@), *final(h), t.id@) && ret,
+                Some(Signal::Terminal) => !ret && sched_closed(**self) && *final(h) == *old(h),
+                None => ret && *final(h) == *old(h),
+            },
+//@@ end
+}
+
 // ---- A4: actions on an unknown process are refused
 pub uninterp spec fn live_proc(pid: Seq<char>) -> bool;
 impl Process {
